@@ -24,6 +24,7 @@ mod c08;
 mod total;
 mod c02msg;
 mod c03;
+mod c15;
 
 use std::collections::HashMap;
 
@@ -80,6 +81,7 @@ fn main() {
         "total" => total::run(&o),
         "c02msg" => c02msg::run(&o),
         "c03" => c03::run(&o),
+        "c15" => c15::run(&o),
         other => {
             eprintln!("unknown stream {other}");
             std::process::exit(2);
